@@ -89,7 +89,13 @@ def p_rules(p: Project, rep: Report):
                     if cb is not None and PT.implies(cb, goal) is False:
                         ok = False
             rep.check("P-R1", "TreeBuilder.end:compares-innermost-open-tag", ok, f"a path reaches the delegated end() without having established `{cont}[-1] == {tagp}`: a missing, misspelled, transposed or stray end tag is silently accepted" if not ok else "", ploc(p, en))
-            pops = [n for n in ecfg.nodes if any(isinstance(c.func, ast.Attribute) and c.func.attr == "pop" and enx.t(c.func.value) == cont and not c.args for c in n.calls())]
+            pops = [n for n in ecfg.nodes if any(isinstance(c.func, ast.Attribute) and c.func.attr == "pop" and enx.t(c.func.value) == cont and (not c.args or text(c.args[0]) == "-1") for c in n.calls())]
+            # `del <container>[-1]` / `del <container>[len(<container>) - 1]` removes the innermost entry as well
+            for n in ecfg.nodes:
+                if isinstance(n.stmt, ast.Delete) and n.kind not in ("join", "handlers"):
+                    for t_ in n.stmt.targets:
+                        if isinstance(t_, ast.Subscript) and enx.t(t_.value) == cont and enx.t(t_.slice).replace(" ", "") in ("-1", f"len({cont})-1"):
+                            pops.append(n)
             ok = bool(pops) and all(ecfg.dominated_by(sn.id, [x.id for x in pops]) for sn in esupers)
             rep.check("P-R1", "TreeBuilder.end:pops-innermost", ok, "the innermost open tag is not popped exactly when an element is closed" if not ok else "", ploc(p, en))
         for s in supers:
@@ -156,21 +162,48 @@ def p_rules(p: Project, rep: Report):
     rep.check("P-R2", "OFXTree.parse:feed-then-close", ok, "" if ok else "close() is not preceded by feed() on every path", ploc(p, parse0))
 
     rep.rule("P-R3", "a start tag after the root element was closed raises: end() records that the outermost element closed, start() raises ParseError when it did")
+    from . import paths as PT3
+
     flag = None
-    if en is not None and cont is not None:
+    flag_set_ok = None
+    if en is not None and cont is not None and st is not None:
         enx2 = Expander(en)
-        for s in own_statements(en):
-            if isinstance(s, ast.If) and text(norm(enx2.x(s.test))) in (f"not {cont}", f"len({cont}) == 0"):
-                for b in s.body:
-                    if isinstance(b, ast.Assign) and text(b.targets[0]).startswith("self.") and isinstance(b.value, ast.Constant) and b.value.value is True:
-                        flag = text(b.targets[0])
+        # candidate: an attribute of self assigned in end() and tested in start()
+        tested = {a_[5:-1] for a_ in PT3.atoms_of(PT3.enumerate_paths(st, expander=Expander(st))) if a_.startswith("bool(self.") and a_.endswith(")")}
+        for s_ in ast.walk(en):
+            if isinstance(s_, ast.Assign) and len(s_.targets) == 1 and text(s_.targets[0]) in tested:
+                flag = text(s_.targets[0])
+                v = s_.value
+                if isinstance(v, ast.Constant) and v.value is True:
+                    par = parent(s_)
+                    if isinstance(par, ast.If) and s_ in par.body:
+                        a_, pol = PT3.canon_atom(enx2.x(par.test))
+                        flag_set_ok = (a_, pol) == (f"bool({cont})", False)
+                    else:
+                        flag_set_ok = None
+                else:
+                    a_, pol = PT3.canon_atom(enx2.x(v))
+                    if (a_, pol) in ((f"bool({cont})", False), (f"1 == len({cont})", True)):
+                        flag_set_ok = True
     ok = False
     if st is not None and flag is not None:
-        cfg = CFG(st)
-        supers = cfg.nodes_calling(lambda c: is_super_call(c, "start"))
-        guards = [n.id for n in cfg.nodes if n.kind == "test" and _raises_parse_error(n.stmt.body) and text(norm(n.stmt.test)) == flag]
-        ok = bool(guards) and bool(supers) and all(cfg.dominated_by(s.id, guards) for s in supers)
+        spaths = PT3.enumerate_paths(st, expander=Expander(st))
+        scfg = spaths.cfg
+        ssupers = scfg.nodes_calling(lambda c: is_super_call(c, "start"))
+        ok = bool(ssupers)
+        for sn in ssupers:
+            for q in spaths:
+                cb = q.conds_before(sn.id)
+                if cb is not None and PT3.implies(cb, PT3.atom(f"bool({flag})", False)) is False:
+                    ok = False
+        raises = [q for q in spaths if q.outcome == "raise" and PT3.simple_conds(q.conds).get(f"bool({flag})") is True]
+        ok = ok and bool(raises)
     rep.check("P-R3", "TreeBuilder.start:refuses-second-root", ok, "a second top-level element after the root was closed is accepted" if not ok else "", ploc(p, st or ci.node))
+    if flag is not None:
+        if flag_set_ok is None:
+            rep.note(f"P-R3 undecided: how end() sets {flag} is not recognised")
+        else:
+            rep.check("P-R3", "TreeBuilder.end:records-root-closed", flag_set_ok, f"{flag} is not set exactly when the outermost element has been closed" if not flag_set_ok else "", ploc(p, en))
     init = ci.own_func("__init__")
     if init is not None and flag is not None and cont is not None:
         inits = {text(s.targets[0]): text(s.value) for s in own_statements(init) if isinstance(s, (ast.Assign, ast.AnnAssign)) and (s.value is not None) for _ in [0] if True} if False else {}
